@@ -563,7 +563,7 @@ pub fn main(args: &Args) {
     rep.set("generated_lists", json!(n_lists));
     rep.set("lists_mutated", json!(n_base));
     rep.rule = format!(
-        "parser: every list of 0..{} items over 34 item forms (all literal kinds incl. negative numbers and byte strings; paths incl. `::a::b`, keywords, raw identifiers; name-values with 11 expression forms incl. turbofish / closure commas and `true = 1`; lists nested to depth 3; `a(,)`), with and without a trailing comma, and every single-token mutation (delete, duplicate, insert one of , ; = :: ! -, identifier -> keyword) of {n_base} of them, against an independent recogniser (all segmentations at commas into chunks that are wholly a syn::Lit or a syn::Meta): accept/reject, item count, order, class, token text, print/re-parse identity. routing: 128 probe types (every subset of the seven hooks overridden) x 20 item forms (word, lists, name-value with each literal kind and non-literal expressions, values inside 1-2 invisible groups, bare literal members) x 4 hook behaviours (Ok, unspanned Err, pre-spanned Err, unspanned bundle of spanned members) against the documented priority chain: exactly one hook (the outermost overridden on the chain) or a default rejection of the documented kind; errors come back with the item's span unless already spanned. states = token streams / (probe, item, behaviour) triples.",
+        "parser: every list of 0..{} items over 34 item forms (all literal kinds incl. negative numbers and byte strings; paths incl. `::a::b`, keywords, raw identifiers; name-values with 11 expression forms incl. turbofish / closure commas and `true = 1`; lists nested to depth 3; `a(,)`), with and without a trailing comma, and every single-token mutation (delete, duplicate, insert one of , ; = :: ! -, identifier -> keyword) of {n_base} of them, (plus lists of 5..65 items with the forms in rotation from every offset) against an independent recogniser (all segmentations at commas into chunks that are wholly a syn::Lit or a syn::Meta): accept/reject, item count, order, class, token text, print/re-parse identity. routing: 128 probe types (every subset of the seven hooks overridden) x 20 item forms (word, lists, name-value with each literal kind and non-literal expressions, values inside 1-2 invisible groups, bare literal members) x 4 hook behaviours (Ok, unspanned Err, pre-spanned Err, unspanned bundle of spanned members) against the documented priority chain: exactly one hook (the outermost overridden on the chain) or a default rejection of the documented kind; errors come back with the item's span unless already spanned. states = token streams / (probe, item, behaviour) triples.",
         if thorough { 3 } else { 2 }
     );
     rep.assumptions = vec!["syn::Lit / syn::Meta parsing of a whole chunk defines what an item is".into()];
